@@ -443,6 +443,8 @@ where
 
     pub(crate) fn insert_with_hash(&self, key: Arc<K>, hash: u64, value: V) {
         let (op, now) = self.base.do_insert_with_hash(key, hash, value);
+        #[cfg(mini_moka_verif)]
+        crate::verif::switch(crate::verif::Point::InsertAfterMap);
         let hk = self.base.housekeeper.as_ref();
         Self::schedule_write_op(
             self.base.inner.as_ref(),
@@ -464,6 +466,8 @@ where
         Q: Hash + Eq + ?Sized,
     {
         if let Some(kv) = self.base.remove_entry(key) {
+            #[cfg(mini_moka_verif)]
+            crate::verif::switch(crate::verif::Point::InvalidateAfterMap);
             let op = WriteOp::Remove(kv);
             let now = self.base.current_time_from_expiration_clock();
             let hk = self.base.housekeeper.as_ref();
@@ -579,6 +583,8 @@ where
         housekeeper: Option<&Arc<Housekeeper>>,
     ) -> Result<(), TrySendError<WriteOp<K, V>>> {
         let mut op = op;
+        #[cfg(mini_moka_verif)]
+        let mut verif_retries = 0u32;
 
         // NOTES:
         // - This will block when the channel is full.
@@ -586,16 +592,90 @@ where
         //   but we got a notable performance degradation.
         loop {
             BaseCache::<K, V, S>::apply_reads_writes_if_needed(inner, ch, now, housekeeper);
+            #[cfg(mini_moka_verif)]
+            crate::verif::switch(crate::verif::Point::WriteBeforeSend);
             match ch.try_send(op) {
                 Ok(()) => break,
                 Err(TrySendError::Full(op1)) => {
                     op = op1;
+                    #[cfg(mini_moka_verif)]
+                    {
+                        verif_retries += 1;
+                        crate::verif::switch(crate::verif::Point::WriteBackoff(verif_retries));
+                    }
                     std::thread::sleep(Duration::from_micros(WRITE_RETRY_INTERVAL_MICROS));
                 }
                 Err(e @ TrySendError::Disconnected(_)) => return Err(e),
             }
         }
         Ok(())
+    }
+}
+
+// Verification hooks.
+#[cfg(mini_moka_verif)]
+impl<K, V, S> Cache<K, V, S>
+where
+    K: Hash + Eq + Send + Sync + 'static,
+    V: Clone + Send + Sync + 'static,
+    S: BuildHasher + Clone + Send + Sync + 'static,
+{
+    /// Replaces the expiration clock with a mock clock, re-arms the periodical
+    /// sync deadline relative to it, and returns the clock's handle.
+    pub fn verif_install_mock_clock(&self) -> crate::verif::MockClock {
+        let clock = self.base.inner.verif_install_mock_clock();
+        if let Some(hk) = &self.base.housekeeper {
+            hk.verif_reset_sync_after(self.base.current_time_from_expiration_clock());
+        }
+        clock
+    }
+
+    pub fn verif_hash(&self, key: &K) -> u64 {
+        self.base.hash(key)
+    }
+
+    pub fn verif_frequency(&self, hash: u64) -> u8 {
+        self.base.inner.verif_frequency(hash)
+    }
+
+    /// A deep copy of the live frequency sketch.
+    pub fn verif_sketch(&self) -> crate::verif::VerifSketch {
+        self.base.inner.verif_sketch()
+    }
+
+    /// Takes a snapshot of the internal data structures and walks the deques.
+    /// Locks the deques mutex (blocks while a maintenance task is running).
+    pub fn verif_snapshot(
+        &self,
+        key_id: impl Fn(&K) -> u64,
+        value_id: impl Fn(&V) -> u64,
+    ) -> crate::verif::Snapshot {
+        let mut snap = self.base.inner.verif_snapshot(key_id, value_id);
+        snap.is_sync_running = self
+            .base
+            .housekeeper
+            .as_ref()
+            .map(|hk| hk.verif_is_sync_running())
+            .unwrap_or(false);
+        snap
+    }
+
+    /// (read channel length, write channel length, is_sync_running), without
+    /// taking any lock.
+    pub fn verif_queue_state(&self) -> (usize, usize, bool) {
+        let (r, w) = self.base.inner.verif_channel_lens();
+        let running = self
+            .base
+            .housekeeper
+            .as_ref()
+            .map(|hk| hk.verif_is_sync_running())
+            .unwrap_or(false);
+        (r, w, running)
+    }
+
+    /// The number of entries in the hash map (sum over the shards).
+    pub fn verif_map_len(&self) -> usize {
+        self.base.inner.verif_map_len()
     }
 }
 
